@@ -248,6 +248,9 @@ pub enum Mutation {
     AppendField { tag: u32, len: u16 },
     /// overwrite the `index`-th offset word of the (possibly framed) message header
     SetOffset { index: u8, value: u32 },
+    /// re-encode with field `tag` set to `value` (added at its place in tag order, or replaced):
+    /// e.g. a classic request that also carries a VER tag, an IETF request with an INDX tag
+    PutField { tag: u32, value: Vec<u8> },
 }
 
 #[derive(Serialize, Deserialize, Clone, Debug, PartialEq)]
